@@ -11,7 +11,7 @@ import re
 
 import z3
 
-from .exec import (Agg, ConstBytes, EngineError, Opaque, Panic, SrcPtr, SrcSlice, U, Violation, as_bv, bvv, s_and,
+from .exec import (Agg, ArrSlice, BF, Cell, Ref, ConstBytes, EngineError, Opaque, Panic, SrcPtr, SrcSlice, U, Violation, as_bv, bvv, s_and,
                    s_not, s_or, simp)
 
 STOP = [
@@ -225,6 +225,49 @@ def bi_slice_get_unchecked_idx(ex, f, a):
     if ex.check(s_not(c)):
         raise Violation('get_unchecked', f'<[u8]>::get_unchecked({i}) out of bounds (len {s.len})')
     return SrcPtr(ex.add_off(s.off, i), ex.add_off(s.off, s.len))
+
+
+def _arr_elem(ex, s, i):
+    """element i (in range, possibly symbolic) of an array-backed slice, as a shared reference"""
+    if isinstance(i, int):
+        return Ref(s.ref.cell, s.ref.path + (i,))
+    arr = ex.read_lv(('cell', s.ref.cell, s.ref.path))
+    return Ref(Cell(ex.sym_select(arr.fields, i)), ())
+
+
+@builtin(r'<usize as (core|std)::slice::SliceIndex<\[.*\]>>::(get|index|get_unchecked)')
+def bi_sliceindex_usize(ex, f, a):
+    """usize indexing of slices that are not the lexed source: tables unsized from arrays (shared references only)"""
+    i, s = a
+    which = f['name'].rsplit('::', 1)[1]
+    if isinstance(s, SrcSlice):
+        n = s.len
+    elif isinstance(s, ArrSlice):
+        n = s.n
+    else:
+        raise EngineError('SliceIndex on ' + repr(s))
+    if isinstance(i, int) and isinstance(n, int):
+        c = i < n
+    elif isinstance(i, BF) and isinstance(n, int):
+        c = BF(i.k, tuple(t < n for t in i.tab), 0)
+    else:
+        c = simp(z3.ULT(as_bv(i, U), as_bv(n, U)))
+
+    def elem():
+        if isinstance(s, SrcSlice):
+            return SrcPtr(ex.add_off(s.off, i), ex.add_off(s.off, s.len))
+        return _arr_elem(ex, s, i)
+    if which == 'get':
+        k = ex.decide([c, s_not(c)], exhaustive=True)
+        return option(ex, f, elem() if k == 0 else None)
+    if which == 'get_unchecked':
+        if ex.check(s_not(c)):
+            raise Violation('get_unchecked', f'slice.get_unchecked({i}) out of bounds (len {n})')
+        return elem()
+    k = ex.decide([c, s_not(c)], exhaustive=True)
+    if k == 1:
+        raise Panic(f'index out of bounds: the len is {n} but the index is {i}')
+    return elem()
 
 
 def _range_like(ex, f, s, r, is_str, checked):
